@@ -17,7 +17,7 @@ LEVEL = "exploration"
 NEEDS = ["harness", "cli"]
 RULE = ("C: complete-data call sets with 1-4 populations of UNEQUAL sizes (two single-individual populations for R0/R1/KING), allele "
         "frequencies spread over the whole range incl. fixed-ALT sites, 5-300 records; every statistic defined for the dimensionality is "
-        "requested in one `stat` call with --precision 12 and compared with the genotype-level value (abs 1e-9 + rel 1e-9 + 0.5e-12), and again at coarse precisions 0-6 (one for all / one per statistic) where every token must be the exact value rounded to its own printed digits; L: 1-D spectra of 3-600 chromosomes and two of more than 2^16; eight sparse joint spectra with 2^14 and more cells (129x131 ... 3x19x19x21) against the site-level definitions; "
+        "requested in one `stat` call with --precision 12 and compared with the genotype-level value (abs 1e-9 + rel 1e-9 + 0.5e-12), and again at coarse precisions 0-6 (one for all / one per statistic) where every token must be the exact value rounded to its own printed digits; L: 1-D spectra of 3-600 chromosomes and two of more than 2^16; 1-D spectra with fractional entries and fewer than one segregating site; two-population spectra in which invariant sites outnumber variable ones by up to 10^12 (relative comparison); eight sparse joint spectra with 2^14 and more cells (129x131 ... 3x19x19x21) against the site-level definitions; "
         "1-D count spectra with n in 3..600 chromosomes (random, sparse, singleton-heavy, mass in the last class) against the published "
         "formulas. Statistics whose exact denominator is 0 are skipped (trivial). Non-trivial: S >= 2 and not all sites identical; distinct = "
         "digest(genotype codes, map) / digest(spectrum). Each statistic has its own counter and floor.")
@@ -25,7 +25,7 @@ ASSUMPTIONS = ["reference values use exact rationals; only the final square root
                "Fu and Li's D is the with-outgroup version using derived singletons (Fu and Li 1993), Tajima's D as in Tajima 1989"]
 STATS_BY_DIM = {1: ["sum", "s", "pi", "theta", "d-tajima", "d-fu-li"], 2: ["sum", "s", "f2", "fst", "pi-xy"], 3: ["sum", "s", "f3"], 4: ["sum", "s", "f4"]}
 ALL14 = ["d-fu-li", "d-tajima", "f2", "f3", "f4", "fst", "king", "pi", "pi-xy", "r0", "r1", "s", "sum", "theta"]
-FLOORS = {"quick": {"evaluations": 1500, "distinct_nontrivial": 1000, "counts": dict({"C_pipelines": 250, "L_spectra": 1500, "L_huge_samples": 2, "L_large_joint_spectra": 8}, **{"stat_" + s: 20 for s in ALL14})},
+FLOORS = {"quick": {"evaluations": 1500, "distinct_nontrivial": 1000, "counts": dict({"C_pipelines": 250, "L_spectra": 1500, "L_huge_samples": 2, "L_large_joint_spectra": 8, "L_invariant_dominated_spectra": 150}, **{"stat_" + s: 20 for s in ALL14})},
           "thorough": {"evaluations": 60000, "distinct_nontrivial": 40000, "counts": dict({"C_pipelines": 8000, "L_spectra": 60000}, **{"stat_" + s: 500 for s in ALL14})}}
 NSHARD = 32
 
@@ -148,8 +148,17 @@ def check_L(S, p):
     for i in range(p["l"]):
         rng = rng_for(seed, "c06", p["name"], "L", i)
         n = rng.choice([3, 4, 5, 6, 7, 10, 20, 37, 100, 171, 172, 301, 600]) if rng.random() < 0.5 else rng.randint(3, 600)
-        style = rng.choice(["random", "sparse", "singletons", "lastclass", "neutral"])
-        if style == "random":
+        style = rng.choice(["random", "sparse", "singletons", "lastclass", "neutral", "fractional"])
+        if style == "fractional":
+            # a projected spectrum of a handful of variable sites: fractional entries, fewer than one (or a few) segregating sites in total
+            n = rng.choice([4, 5, 6, 8, 10, 12, 20, 37])
+            c = [0.0] * (n + 1)
+            c[0] = float(rng.randrange(0, 1000))
+            tot_ = rng.choice([0.05, 0.3, 0.6, 0.95, 1.0, 1.7, 2.5])
+            w_ = [rng.random() for _ in range(n - 1)]
+            for k_ in range(1, n):
+                c[k_] = tot_ * w_[k_ - 1] / sum(w_) if rng.random() < 0.7 else 0.0
+        elif style == "random":
             c = [rng.randrange(0, 500) for _ in range(n + 1)]
         elif style == "sparse":
             c = [rng.randrange(1, 50) if rng.random() < 0.1 else 0 for _ in range(n + 1)]
@@ -167,7 +176,7 @@ def check_L(S, p):
     if p["i"] % 16 == 0:
         # a sample of more than 2^16 chromosomes (biobank scale): counters and products of the sample size must not wrap
         rng = rng_for(seed, "c06", p["name"], "huge")
-        n = rng.choice([66000, 65537, 70001, 131073])
+        n = rng.choice([66000, 65537, 70001, 65600])
         c = [0] * (n + 1)
         for k in [1, 2, 3, n // 2, n - 1] + [rng.randrange(1, n) for _ in range(40)]:
             c[k] += rng.randrange(1, 500)
@@ -250,11 +259,57 @@ def check_L_large_joint(S, p):
     S.case(key=digest(["large-joint", shape, sorted(cells.items())]), nontrivial=True)
 
 
+def check_L_invariant_dominated(S, p):
+    """Small joint spectra of two populations in which the invariant sites outnumber the variable ones by 10^3 .. 10^12 (a whole genome with a
+    few dozen SNPs): f2 and pi_xy scale with the proportion of variable sites, Fst - a ratio - must not depend on the invariant count at all."""
+    rng = rng_for(S.seed, "c06", p["name"], "invariant")
+    reqs, meta = [], []
+    for _ in range(6):
+        n1, n2 = rng.randint(2, 9), rng.randint(2, 9)
+        cells = {}
+        for _ in range(rng.randint(3, 30)):
+            ix = (rng.randint(0, n1), rng.randint(0, n2))
+            if ix not in ((0, 0), (n1, n2)):
+                cells[ix] = cells.get(ix, 0) + rng.randint(1, 3)
+        if not cells:
+            cells[(1, 0)] = 1
+        cells[(0, 0)] = rng.choice([10 ** 3, 10 ** 6, 10 ** 9, 10 ** 12, 3 * 10 ** 10])
+        if rng.random() < 0.5:
+            cells[(n1, n2)] = rng.choice([10 ** 2, 10 ** 7])
+        data = [0.0] * ((n1 + 1) * (n2 + 1))
+        for (i_, j_), c_ in cells.items():
+            data[i_ * (n2 + 1) + j_] = float(c_)
+        reqs.append({"op": "spec", "do": "stats", "shape": [n1 + 1, n2 + 1], "data": GS.hexes(data)})
+        meta.append((n1, n2, cells))
+    for (n1, n2, cells), r in zip(meta, harness.run_all(reqs)):
+        L = sum(cells.values())
+        f2 = sum(Fraction(c_) * (Fraction(i_, n1) - Fraction(j_, n2)) ** 2 for (i_, j_), c_ in cells.items()) / L
+        pixy = sum(Fraction(c_) * Fraction(i_ * (n2 - j_) + j_ * (n1 - i_), n1 * n2) for (i_, j_), c_ in cells.items())
+        num = sum(Fraction(c_) * ((Fraction(i_, n1) - Fraction(j_, n2)) ** 2 - Fraction(i_, n1) * (1 - Fraction(i_, n1)) / (n1 - 1) - Fraction(j_, n2) * (1 - Fraction(j_, n2)) / (n2 - 1))
+                  for (i_, j_), c_ in cells.items())
+        den = sum(Fraction(c_) * (Fraction(i_, n1) * (1 - Fraction(j_, n2)) + Fraction(j_, n2) * (1 - Fraction(i_, n1))) for (i_, j_), c_ in cells.items())
+        exact = {"sum": Fraction(L), "f2": f2, "pi-xy": pixy, "fst": num / den if den else None}
+        S.count("L_invariant_dominated_spectra")
+        wit = {"level": "L", "shape": [n1 + 1, n2 + 1], "cells": [[list(k_), v_] for k_, v_ in sorted(cells.items())]}
+        for nm, e in exact.items():
+            if e is None:
+                continue
+            S.count("stat_" + nm)
+            v = r.get(nm, {})
+            got = h2f(v["v"]) if "v" in v else float("nan")
+            # relative: these values are tiny when invariant sites dominate, an absolute allowance would excuse anything
+            if not (math.isfinite(got) and abs(Fraction(got) - e) <= abs(e) / 10 ** 9 + Fraction(1, 10 ** 30)):
+                S.viol("C06:site-definition:%s" % nm, "[L joint spectrum %dx%d with %d invariant of %d sites] %s = %.12g, from the sites %.12g" % (
+                    n1 + 1, n2 + 1, cells[(0, 0)], L, nm, got, float(e)), wit)
+        S.case(key=digest(["invariant", n1, n2, sorted(cells.items())]), nontrivial=True)
+
+
 def shard(S, p):
     if "replay" in p:
         S.inconc("witness carries the inputs for manual replay")
         return
     check_C(S, p)
+    check_L_invariant_dominated(S, p)
     if p["i"] % 4 == 2:
         check_L_large_joint(S, p)
     check_L(S, p)
